@@ -136,5 +136,7 @@ func MakeUpdown(r *fw.Rng, p UpdownProfile) UpdownInput {
 		k, j := r.Intn(nq), r.Intn(nt)
 		in.Targets[j].ID, in.Targets[j].Desc = in.Queries[k].ID, in.Queries[k].Desc
 	}
+	Describe(r, in.Queries)
+	Describe(r, in.Targets)
 	return in
 }
